@@ -79,6 +79,24 @@ def cases(ctx):
                "stick": rng.choice([0.0, 0.5, 0.8])}
 
 
+def setup(ctx):
+    """The growers' temporary directory ($TMPDIR) is on ANOTHER file system than the crop whenever this machine has one
+    (node-local /tmp against a shared work directory is the normal cluster layout): whatever the code does with
+    temporary files, a move from there into the crop is a copy, not a rename."""
+    import tempfile
+    shm = "/dev/shm"
+    try:
+        if os.path.isdir(shm) and os.access(shm, os.W_OK) and os.stat(shm).st_dev != os.stat(tempfile.gettempdir()).st_dev:
+            d = tempfile.mkdtemp(prefix="vf-C11-tmpdir-", dir=shm)
+            tempfile.tempdir = d
+            os.environ["TMPDIR"] = d
+            import atexit
+            atexit.register(shutil.rmtree, d, True)
+            ctx.count("runs_with_tmpdir_on_another_filesystem")
+    except OSError:
+        pass
+
+
 class World(object):
     """One configuration: a sown crop kept as a template, copied fresh for every schedule."""
 
